@@ -264,6 +264,17 @@ pub fn check_container(obs: &mut Obs, spec: &ContainerSpec, case_index: u64) {
         if owned.compressed() != want_compressed || owned.data() != raw {
             obs.violation("owned record differs from borrowed record", format!("record {}", i), replay.clone());
         }
+        if want_compressed {
+            match mon::catch(|| owned.messages()) {
+                Ok(Err(_)) => obs.count("decoding_compressed_record_is_error", 1),
+                Ok(Ok(v)) => obs.violation(
+                    "messages() on an owned compressed record is not an error",
+                    format!("record {}: Ok with {} messages", i, v.len()),
+                    replay.clone(),
+                ),
+                Err(p) => obs.violation(format!("messages {}", p.signature()), p.message, replay.clone()),
+            }
+        }
         match b {
             Body::Compressed { payload, .. } => {
                 if !want_compressed {
